@@ -271,6 +271,7 @@ Inductive tmode := TLegacy | TSide.   (* Siding and Siding+DialWithAddr share ev
 (** Schedule parameters of one direction; all arbitrary. *)
 Record sched := mkSched {
   sc_tcp : list N;            (* segmentation of the front connection *)
+  sc_late : bool;             (* the front connection reports its end together with the last bytes *)
   sc_copy : list N;           (* buffer sizes of the proxy's copy loop (io.Copy: 32768 each) *)
   sc_ws : list (N * bool);    (* choices of the websocket message reader *)
   sc_app : list N;            (* buffer sizes of the final reader *)
@@ -282,7 +283,7 @@ Record sched := mkSched {
     TLSHelloConn into the dialled connection. *)
 Definition to_app (m : tmode) (cap chunk : N) (sc : sched) (stream : bytes)
   : list bytes * bytes :=
-  match sniff cap (br_new (mkConn stream (sc_tcp sc))) with
+  match sniff cap (br_new (mkConn stream (sc_tcp sc) (sc_late sc))) with
   | Ok (_, b1) =>
       let '(copied, _, b2) := breads cap (sc_copy sc) b1 in
       match m with
